@@ -420,7 +420,10 @@ def _(I): return (I.P() + 2, 3 + I.Y1(), I.Y1() - 1)
 @op('c/povm')
 def _(I):
     circ = I.circuit()
-    return list(circ.povm(1))
+    one = list(circ.povm(1))
+    several = list(circ.povm(3))          # every sample is the basis state pulled back once (a fixed circuit: all equal), each its own object
+    distinct = len({id(x) for x in several}) == len(several)
+    return one + several + [distinct, list(I.circuit(compile_=True).povm(2))]
 
 
 def make_fn(name):
